@@ -21,6 +21,7 @@
 #include <assert.h>
 #include <complex.h>
 #include <errno.h>
+#include <float.h>
 #include <math.h>
 #include <stdarg.h>
 #include <stdio.h>
@@ -95,6 +96,24 @@ static double chisq_pvalue(int n, double x2)
 	    s += f;
 	}
 	result = c * s;
+
+	/*
+	 * If exp(-x) underflowed (to zero: 0 times infinity is not a number;
+	 * or into the denormal range, where few of its digits are left) or
+	 * the sum overflowed, add the terms exp(-x) x^i / i! one by one,
+	 * each computed from its logarithm.
+	 */
+	if (c < DBL_MIN || !isfinite(s)) {
+	    const double log_x = log(x);
+
+	    result = 0.0;
+	    for (int i = 0; i < n; ++i) {
+		result += exp(-x + (double)i * log_x - lgamma((double)i + 1.0));
+	    }
+	    if (result > 1.0) {
+		result = 1.0;
+	    }
+	}
 
     /*
      * For n odd,
